@@ -75,4 +75,23 @@ theorem C15_spec_reading_is_the_models (c : List Char) : specPragmaOfComment c =
 /-- non-vacuity: the usual JSDoc layout -/
 example : pragmaOfCommentText "*\n * @jsx h\n ".toList = some "h".toList := by decide
 
+/-- the specification's notion of a callable factory name (written independently in `Oracle.specValidPragma`) is the model's -/
+theorem C15_spec_valid_pragma_is_the_models (p : String) : specValidPragma p = isValidPragma p := by
+  unfold specValidPragma isValidPragma
+  cases h : (Text.splitOn '.' p.toList).map String.ofList with
+  | nil => rfl
+  | cons first rest =>
+    simp only
+    congr 1
+    by_cases ht : first = "this"
+    · subst ht; decide
+    · have h1 : (first == "this") = false := by simpa using ht
+      unfold isValidSymbol
+      simp only [h1, Bool.or_false, Bool.false_or]
+      cases hr : reservedWords.contains first <;> cases hl : first.toList <;> simp
+
+/-- member chains are factory names: `this.h`, `h.default`, `React.createElement`; a reserved word cannot be the object -/
+example : isValidPragma "this.h" = true ∧ isValidPragma "h.default" = true ∧ isValidPragma "React.createElement" = true
+    ∧ isValidPragma "default.h" = false ∧ isValidPragma "h." = false ∧ isValidPragma "h x" = false := by decide
+
 end VueJsx
